@@ -38,6 +38,11 @@ func seqProfile(prop string, g *Gen, cfg *Config, rng *SplitMix) (steps int) {
 	steps = 12 + rng.Intn(18)
 	clocks := []string{"fine", "fine", "coarse", "second", "leap", "back"}
 	cfg.Clock = clocks[rng.Intn(len(clocks))]
+	if rng.Chance(1, 3) {
+		// text with edge whitespace, quotes, control and multi-byte characters
+		// is not C17's private matter: it travels through every command
+		g.Text = "unicode"
+	}
 	switch prop {
 	case "C06":
 		g.W["set"] = 40
@@ -46,6 +51,7 @@ func seqProfile(prop string, g *Gen, cfg *Config, rng *SplitMix) (steps int) {
 		g.W["claim"] = 8
 		g.W["plan"], g.W["file"], g.W["sequence"], g.W["sequence_rm"] = 1, 1, 2, 1
 		g.BadBias = 8
+		g.MixPct = 6
 	case "C07":
 		g.W["sequence"] = 40
 		g.W["sequence_rm"] = 14
@@ -97,6 +103,7 @@ func seqProfile(prop string, g *Gen, cfg *Config, rng *SplitMix) (steps int) {
 		g.W["prune"] = 10
 		g.W["plan"] = 5
 		g.BadBias = 30
+		g.MixPct = 10
 	case "C16":
 		g.RawPct = 10
 		g.W["sequence"] = 20
